@@ -19,8 +19,25 @@ FN = "get_components"
 def exec_job(job):
     import bct
     A = np.array(job["A"], dtype=float)
+    # the matrix as a caller might hold it: integer / boolean / unsigned types, Fortran order or a
+    # view into a larger array (the record keeps the values)
+    dt = job.get("dtype")
+    if dt == "bool":
+        if np.isin(A, (0, 1)).all():
+            A = A.astype(bool)
+    elif dt == "uint8":
+        if (A >= 0).all():
+            A = A.astype("uint8")
+    elif dt:
+        A = A.astype({"int": int}.get(dt, dt))
+    if job.get("layout") == "F":
+        A = np.asfortranarray(A)
+    elif job.get("layout") == "view":
+        big = np.zeros((len(A) + 1, len(A) + 2), dtype=A.dtype)
+        big[1:, 2:] = A
+        A = big[1:, 2:]
     n = len(A)
-    rec = dict(fn=FN, n=n, A=encode.mat_int(A), raised="", malformed="",
+    rec = dict(fn=FN, n=n, A=encode.mat_int(np.array(job["A"], dtype=float)), raised="", malformed="",
                comps=[], sizes=[], ncomp=-1, dbin=[], dbreadth=[], dreach=[])
     A0 = A.copy()
     try:
@@ -109,9 +126,19 @@ def build_jobs(ctx):
     return jobs
 
 
+def diversify(ctx, jobs):
+    rng = random.Random(ctx.seed + 77)
+    for j in jobs:
+        if rng.random() < 0.45:
+            j["dtype"] = rng.choice(["int", "int32", "bool", "uint8", "float32"])
+        if rng.random() < 0.25:
+            j["layout"] = rng.choice(["F", "view"])
+    return jobs
+
+
 def run(ctx):
     ctx.mc("MC_Components.tla", "MC_Components.cfg" if ctx.quick else "MC_Components_thorough.cfg")
-    jobs = build_jobs(ctx)
+    jobs = diversify(ctx, build_jobs(ctx))
     recs = pool.run_jobs(__name__, jobs)
     verdicts = ctx.validate("Trace_Components.tla", "Trace_Components.cfg", recs)
     ctx.judge(jobs, recs, verdicts)
